@@ -389,13 +389,14 @@ Lemma pipeline_core doc st :
       end
   | Crash k =>
       k = crash_RuntimeError /\ failed_early st = false /\ st_opselect st = None /\
-      st_varcoercion st = [] /\ forallb is_finite (st_float_returns st) = false
+      st_varcoercion st = [] /\ st_rootcoercion st = [] /\
+      forallb is_finite (st_float_returns st) = false
   | _ => False
   end.
 Proof.
   unfold stages_wf_b. rewrite !andb_true_iff.
-  intros [[[[[[V1 V2] C1] C2] X1] X2] XS].
-  unfold pipeline_model, process, failed_early.
+  intros [[[[[[[[V1 V2] C1] C2] R1] R2] X1] X2] XS].
+  unfold pipeline_model, process, failed_early, failed_early_pre.
   destruct (st_parse st) as [[m p]|].
   - cbn [obind]. destruct (response_syntax_ok doc m p) as (r & Er & W & Wbad & D).
     rewrite Er. auto.
@@ -406,13 +407,18 @@ Proof.
           try reflexivity; [intros; discriminate|].
         rewrite Er. auto.
       * destruct (st_varcoercion st) as [|c cs] eqn:Ec.
-        -- rewrite float_check_is_finite.
-           destruct (forallb is_finite (st_float_returns st)) eqn:Ef.
+        -- destruct (st_rootcoercion st) as [|rc rcs] eqn:Er0.
+           ++ rewrite float_check_is_finite.
+              destruct (forallb is_finite (st_float_returns st)) eqn:Ef.
+              ** cbn [obind].
+                 destruct (response_ok doc (Some (fst (st_exec st))) (snd (st_exec st)))
+                   as (r & Er & W & D); try assumption; [intros; discriminate|].
+                 rewrite Er. auto.
+              ** cbn [obind]. repeat split; reflexivity.
            ++ cbn [obind].
-              destruct (response_ok doc (Some (fst (st_exec st))) (snd (st_exec st)))
-                as (r & Er & W & D); try assumption; [intros; discriminate|].
+              destruct (response_ok doc (Some JNull) (rc :: rcs)) as (r & Er & W & D);
+                try assumption; try reflexivity; [intros; discriminate|].
               rewrite Er. auto.
-           ++ cbn [obind]. auto.
         -- cbn [obind].
            destruct (response_ok doc (Some JNull) (c :: cs)) as (r & Er & W & D);
              try assumption; try reflexivity; [intros; discriminate|].
@@ -438,7 +444,7 @@ Theorem pipeline_wf_refuted :
   exists doc st r, stages_wf_b doc st = true /\ pipeline_model doc st = Ok r /\
                    ~ wf_response doc r.
 Proof.
-  exists [123%N], (Stages (Some ([120%N], 1)) [] None [] [] (JNull, [])).
+  exists [123%N], (Stages (Some ([120%N], 1)) [] None [] [] [] (JNull, [])).
   eexists. split; [reflexivity|]. split; [reflexivity|].
   intro H. apply wf_response_b_iff in H. vm_compute in H. discriminate.
 Qed.
@@ -469,7 +475,7 @@ Proof.
   intros Hwf. pose proof (pipeline_core doc st Hwf) as H.
   destruct (pipeline_model doc st) as [r| |k p|k]; try contradiction.
   - left. eauto.
-  - right. destruct H as (-> & He & _ & _ & Hf). split; [reflexivity|]. split; [exact He|].
+  - right. destruct H as (-> & He & _ & _ & _ & Hf). split; [reflexivity|]. split; [exact He|].
     clear - Hf. induction (st_float_returns st) as [|f l IH]; [discriminate|].
     cbn [forallb] in Hf. destruct (is_finite f) eqn:E.
     + destruct (IH Hf) as (g & Hg & Eg). exists g. split; [right; exact Hg|exact Eg].
@@ -645,3 +651,37 @@ Proof.
   rewrite count_path_nonempty; [|apply Hne; exact Hin].
   apply Hm; assumption.
 Qed.
+
+Lemma map_outcome_length {A B} (f : A -> outcome B) : forall l js,
+  map_outcome f l = Ok js -> length js = length l.
+Proof.
+  induction l as [|a l IH]; intros js H; cbn [map_outcome] in H.
+  - inversion H; reflexivity.
+  - destruct (f a); try discriminate. cbn [obind] in H.
+    destruct (map_outcome f l) as [ys| | |]; try discriminate. cbn [obind] in H.
+    inversion H; subst. simpl. f_equal. apply IH. reflexivity.
+Qed.
+
+(* aborted after validation, before any field ran (operation selection,
+   variable coercion, @skip/@include arguments of the root selection set):
+   "data" is present and null *)
+Theorem pipeline_abort_data doc st r :
+  pipeline_model doc st = Ok r -> aborted_before_execution st = true ->
+  response_data r = Some JNull /\ response_errors r <> [].
+Proof.
+  unfold pipeline_model, process, aborted_before_execution, failed_early_pre.
+  destruct (st_parse st) as [[m p]|]; [intros _ H; discriminate|].
+  destruct (st_validation st) as [|e es]; [|intros _ H; discriminate].
+  assert (Hgo : forall errs, errs <> [] -> response doc (Result (Some JNull) errs) = Ok r ->
+                             response_data r = Some JNull /\ response_errors r <> []).
+  { intros errs Hne Hr. destruct (response_parts doc _ _ _ Hr) as (js & Ejs & Ee & Ed).
+    split; [exact Ed|]. rewrite Ee. intro Hj. subst js.
+    apply map_outcome_length in Ejs. destruct errs; [congruence|discriminate]. }
+  destruct (st_opselect st) as [m|].
+  - cbn [obind]. intros Hr _. apply (Hgo [EExecution m]); [discriminate|exact Hr].
+  - destruct (st_varcoercion st) as [|c cs].
+    + destruct (st_rootcoercion st) as [|rc rcs]; [intros _ H; discriminate|].
+      cbn [obind]. intros Hr _. apply (Hgo (rc :: rcs)); [discriminate|exact Hr].
+    + cbn [obind]. intros Hr _. apply (Hgo (c :: cs)); [discriminate|exact Hr].
+Qed.
+
